@@ -316,7 +316,7 @@ def replay(ctx, rep):
         server_start(c2)
         hit = [v for v in c2.violations if v['key'] == rep['key']]
         return bool(hit), (hit[0]['observed'] if hit else 'server starts')
-    s, wrote = tg.replay_script(case['script'])
+    s, wrote = tg.replay_script(case)
     try:
         t = s.t
         if t.died:
